@@ -36,6 +36,19 @@ def run(tier, seed, replay=None):
     events = vlib.read_ndjson(epath)
     # batch independence compares cases with each other: one shard keeps every group together
     bad, tstats = vlib.run_trace("Trace_C16.tla", "Trace_C16.cfg", events, "C16", shards=1, timeout=2400)
+    # implementation model TypeSpaceImpl (identifier allocation, name_to_id, ref_to_id): design check,
+    # then every recorded call of the real TypeSpace validated as a step of the model (Trace_TS)
+    _, ts_design, _ = vlib.run_mc("MC_TypeSpace.tla", "TypeSpace.cfg", "TypeSpace", workers=6, timeout=900)
+    ts_events = vlib.read_ndjson(epath + ".ts")
+    ts_bad, ts_stats = vlib.run_trace("Trace_TS.tla", "Trace_TS.cfg", ts_events, "C16.TS", shards=14, timeout=2400)
+    os.remove(epath + ".ts")
+    for v in ts_bad:
+        v["l"] = 0          # line numbers of the model trace do not index the contract trace
+    bad = bad + ts_bad
+    tstats["typespace_model"] = {"design_check": ts_design, "trace": ts_stats,
+                                 "calls_validated": sum(1 for e in ts_events if e["ev"] == "ts"),
+                                 "calls_after_a_failed_call": sum(1 for e in ts_events if e["ev"] == "ts" and e["res"] != "ok"),
+                                 "rejected": len(ts_bad)}
 
     def replay_of(v):
         i = v["case"] - 1
@@ -53,7 +66,9 @@ def run(tier, seed, replay=None):
          "distinct_nontrivial": sum(1 for c in cases if len(c["hist"]) >= 2),
          "api_calls_replayed": calls,
          "groups_for_batch_independence": len(set(json.dumps(c["group"]) for c in cases if c["group"]))},
-        ["observations use the public API only (get_type/name/ident/details, to_stream) after every call",
+        ["contract observations use the public API only (get_type/name/ident/details, to_stream) after every call",
+         "implementation model: the hook verif_snapshot projects next_id, id_to_entry, name_to_id, ref_to_id after every call; "
+         "Trace_TS validates each call as a step of spec/TypeSpaceImpl.tla (StepOK) and each state against its invariants",
          "a panic inside an ingestion call is a rejection (DESIGN 2.4); the invariants must still hold afterwards",
          "structure of a type = kind + (label, child id, required) of its members + builtin name, through Type::details()"],
         replay_of)
